@@ -704,6 +704,9 @@ def run_suggest(out, theories, rnd, n_per):
                 break
 
 
+RECHECK_BEFORE = {}
+
+
 def suggest_event(out, thname, item, state, idx, gid, r, rec_step):
     context.set_context(None, vars=item.vars)
     mname = r["method_name"]
@@ -759,6 +762,16 @@ def suggest_event(out, thname, item, state, idx, gid, r, rec_step):
             ev["after_props"] = [[p[1] != "sorry", p[2]] for p in props_of(trial)]
             ev["before_props"] = [[p[1] != "sorry", p[2]] for p in props_of(state)]
             ev["query"], ev["query_other"], ev["exc"] = [], [], ""
+            # "closed" means proved: the state before and the state after are put through the full check (every derived step is
+            # expanded); gaps are allowed
+            rb = RECHECK_BEFORE.get(id(state))
+            if rb is None or rb[0] is not state:
+                rb = (state, recheck(state))
+                RECHECK_BEFORE.clear()
+                RECHECK_BEFORE[id(state)] = rb
+            ev["recheck_before"] = rb[1][0]
+            ra = recheck(trial) if rb[1][0] else [True, [], -1, ""]
+            ev["recheck_after"], ev["recheck_exc"] = ra[0], ra[3]
         except theory.ParameterQueryException as e:
             ev["outcome"] = "query"
             ev["query"] = [p for p in e.params if p.startswith("param_")]
